@@ -355,7 +355,7 @@ func ruleC05Fold(c *Ctx) {
 		found[s] = true
 		okExact := false
 		why := "the replacement of the output by `" + s + "` is not guarded by an exact whole-output comparison"
-		for _, br := range fi.Guards(cv.Block()) {
+		for _, br := range fi.DomGuards(cv.Block()) {
 			cond, pol := br.Cond()
 			if !pol || cond == nil {
 				continue
@@ -418,7 +418,7 @@ func ruleC05Extra(c *Ctx) {
 		// the deletion must happen in every iteration of the loop over the names:
 		// its block post-dominates the loop body's entry.
 		extraGuard := "no enclosing range loop"
-		for _, br := range fi.Guards(call.Block()) {
+		for _, br := range fi.DomGuards(call.Block()) {
 			cond, pol := br.Cond()
 			if ext, ok := cond.(*ssa.Extract); ok && pol {
 				if _, isNext := ext.Tuple.(*ssa.Next); isNext && ext.Index == 0 {
@@ -464,7 +464,7 @@ func ruleC05Extra(c *Ctx) {
 		if k, isConst := ret.Results[1].(*ssa.Const); isConst && k.IsNil() {
 			return
 		}
-		for _, br := range fm.Guards(ret.Block()) {
+		for _, br := range fm.DomGuards(ret.Block()) {
 			cond, pol := br.Cond()
 			if lk, ok := cond.(*ssa.Lookup); ok && pol {
 				if m, isMap := lk.X.Type().Underlying().(*types.Map); isMap && tString(m.Key()) {
@@ -558,7 +558,7 @@ func ruleC05Integers(c *Ctx) {
 
 func init() {
 	p := Properties["C05"]
-	p.Rules = append(p.Rules, Rule{"C05/const-null", ruleC05ConstNull}, Rule{"C05/name-set-embedded", ruleC05NameSetEmbedded})
+	p.Rules = append(p.Rules, Rule{"C05/const-null", ruleC05ConstNull}, Rule{"C05/name-set-embedded", ruleC05NameSetEmbedded}, Rule{"C05/name-set-exact", func(c *Ctx) { ruleNameSetExact(c, "C05/name-set-exact") }})
 }
 
 // `"const": null` must unmarshal to a non-nil pointer to nil: the wrapper takes
@@ -585,7 +585,7 @@ func ruleC05ConstNull(c *Ctx) {
 			if !ok || !a.Heap || !isEmptyInterface(derefType(a.Type())) {
 				return
 			}
-			for _, br := range fi.Guards(st.Block()) {
+			for _, br := range fi.DomGuards(st.Block()) {
 				cond, pol := br.Cond()
 				if call, ok := cond.(*ssa.Call); ok && pol && core.CalleeKey(&call.Call) == "bytes.Equal" {
 					for _, arg := range call.Call.Args {
@@ -649,7 +649,7 @@ func ruleC05NameSetEmbedded(c *Ctx) {
 		if !fromSelf {
 			return
 		}
-		for _, br := range fi.Guards(mu.Block()) {
+		for _, br := range fi.DomGuards(mu.Block()) {
 			cond, pol := br.Cond()
 			if fld, ok := cond.(*ssa.Field); ok && pol && core.StructField(fld.X.Type(), fld.Field).Name() == "Anonymous" {
 				okRec = true
@@ -663,4 +663,71 @@ func ruleC05NameSetEmbedded(c *Ctx) {
 	})
 	c.R.Check(okRec, rule, core.FuncName(nameFn)+":embedded-names-included", c.P.Pos(nameFn.Pos()), "for an anonymous field the names of the embedded struct (recursive call) are inserted into the set",
 		"the JSON-name set no longer includes the names of embedded structs: every keyword of the embedded Schema would also be copied into Extra and emitted twice")
+}
+
+// nameSetFn finds the function computing the JSON-name set used by the splice helpers.
+func (c *Ctx) nameSetFn(rule string) *ssa.Function {
+	_, _, mh, uh := c.wrapperTypes(rule)
+	var nameFn *ssa.Function
+	for _, h := range []*ssa.Function{mh, uh} {
+		if h == nil {
+			continue
+		}
+		core.EachInstr(h, func(i ssa.Instruction) {
+			if call, ok := i.(*ssa.Call); ok {
+				if callee := call.Call.StaticCallee(); callee != nil && c.P.InPkg(callee) && callee.Signature.Results().Len() == 1 {
+					if m, ok := callee.Signature.Results().At(0).Type().Underlying().(*types.Map); ok && tString(m.Key()) && tBool(m.Elem()) {
+						nameFn = callee
+					}
+				}
+			}
+		})
+	}
+	return nameFn
+}
+
+// The JSON-name set decides which keys are keywords (exactly) and which go to
+// Extra: every member inserted must be a field's JSON name as computed by the
+// tag parser, or a member of the set of an embedded struct - never a
+// transformed spelling.
+func ruleNameSetExact(c *Ctx, rule string) {
+	nameFn := c.nameSetFn(rule)
+	if nameFn == nil {
+		c.R.Unresolved(rule, "JSON-name-set function used by the splice helpers")
+		return
+	}
+	n := 0
+	core.EachInstr(nameFn, func(i ssa.Instruction) {
+		mu, ok := i.(*ssa.MapUpdate)
+		if !ok {
+			return
+		}
+		n++
+		okKey := true
+		why := ""
+		for _, s := range traceSources(mu.Key) {
+			switch x := s.(type) {
+			case *ssa.Field:
+				if core.StructField(x.X.Type(), x.Field).Name() != "name" {
+					okKey, why = false, "field "+core.StructField(x.X.Type(), x.Field).Name()
+				}
+			case *ssa.UnOp:
+				if fa, ok := x.X.(*ssa.FieldAddr); ok && core.StructField(fa.X.Type(), fa.Field).Name() == "name" {
+					continue
+				}
+				okKey, why = false, "a computed value"
+			case *ssa.Extract:
+				if _, isNext := x.Tuple.(*ssa.Next); !isNext {
+					okKey, why = false, "a computed value"
+				}
+			case *ssa.Call:
+				okKey, why = false, "the result of "+core.CalleeKey(&x.Call)
+			default:
+				okKey, why = false, fmt.Sprintf("%T", s)
+			}
+		}
+		c.R.Check(okKey, rule, fmt.Sprintf("%s:insert#%d", core.FuncName(nameFn), n), c.pos(mu), "the inserted member is a field's JSON name (or a member of an embedded struct's set)",
+			"the JSON-name set receives "+why+" instead of a field's exact JSON name: keys that are not keywords would be treated as known (hidden from Extra, let through to the case-insensitive struct decoder)")
+	})
+	c.R.Floor(rule, "insertions into the JSON-name set", n, 2)
 }
